@@ -33,13 +33,14 @@ def groups(n, seed):
             runs.append({"prob": ps, "params": q, "run": rn, "twin": "C08"})
         gs.append({"tag": "C08", "runs": runs})
     # deadline inside the Newton loop of the exact controller while one doubling reaches lamb_max
-    for i, j0 in enumerate(range(3, 3 + (60 if n > 100 else 18), 3)):
-        ps = ("repo", ["hs71c", "tame", "hs71"][i % 3])
-        pk = dict(step_control_type=StepControlType.Exact, lamb_max=[2.0, 4.0][i % 2], iteration_limit=16, display_interval=1e9)
-        runs = [{"prob": ps, "params": dict(pk), "run": "A", "twin": "C08"}]
-        for rn, j in zip(("B", "C", "D"), (j0, j0 + 1, j0 + 2)):
-            runs.append({"prob": ps, "params": dict(pk, time_limit=float(j)), "run": rn, "twin": "C08"})
-        gs.append({"tag": "C08.lambmax", "runs": runs})
+    probs = [("repo", "tame")] + [("convex_qp", 1000 + k, 3, 1, {}) for k in range(6 if n > 100 else 2)]
+    for ps in probs:
+        for j0 in (1, 4, 7):
+            pk = dict(step_control_type=StepControlType.Exact, lamb_max=2.0, iteration_limit=16, display_interval=1e9)
+            runs = [{"prob": ps, "params": dict(pk), "run": "A", "twin": "C08"}]
+            for rn, j in zip(("B", "C", "D"), (j0, j0 + 1, j0 + 2)):
+                runs.append({"prob": ps, "params": dict(pk, time_limit=float(j)), "run": rn, "twin": "C08"})
+            gs.append({"tag": "C08.lambmax", "runs": runs})
     return gs
 
 
@@ -47,6 +48,8 @@ def main():
     chk = Check("C08")
     chk.mc("GF_twin_stop.cfg" if chk.thorough else "GF_q_twin_stop.cfg")
     chk.mc("GF_deadline.cfg" if chk.thorough else "GF_q_deadline.cfg")
+    # witness: with the pre-fix behaviour (deadline abort doubles lamb) the model must violate the clause
+    chk.mc("GF_w_F8.cfg", must_violate="NoViolation")
     chk.tv(groups(500 if chk.thorough else 40, chk.seed), "C08 twins")
     chk.assumptions += ["virtual clock: one unit tick per read, so `time_limit = j` expires exactly at a chosen read",
                         "the problem callbacks are deterministic functions of their arguments"]
